@@ -40,6 +40,8 @@ type RTA struct {
 	prog   *ssa.Program
 	flags  []flagCond
 	noDesc func(*ssa.Function) bool // functions whose bodies are not traversed (sinks)
+	noAddrReach bool                 // do not treat address-taken functions as reachable from the taker
+	skipSite    func(f *ssa.Function, in ssa.Instruction) bool // call sites whose out-edges are not followed
 
 	reach     map[*ssa.Function]*rtaEdge // first (BFS) edge by which a function was reached; root: edge with caller nil
 	order     []*ssa.Function
@@ -224,6 +226,9 @@ func (r *RTA) visit(f *ssa.Function) {
 				r.addLive(in.X.Type(), false)
 			}
 			if ci, ok := instr.(ssa.CallInstruction); ok {
+				if r.skipSite != nil && r.skipSite(f, instr) {
+					continue
+				}
 				cc := ci.Common()
 				if cc.IsInvoke() {
 					r.invCalls++
@@ -274,7 +279,9 @@ func (r *RTA) addrTaken(in *ssa.Function, fn *ssa.Function, pos token.Pos) {
 	// also be called from code we do not see resolve precisely (callbacks
 	// handed to the standard library through interfaces); record it as
 	// reachable from the taker.
-	r.reachFn(&rtaEdge{caller: in, callee: fn, pos: pos, kind: "addr"})
+	if !r.noAddrReach {
+		r.reachFn(&rtaEdge{caller: in, callee: fn, pos: pos, kind: "addr"})
+	}
 }
 
 func (r *RTA) addLive(T types.Type, skip bool) {
